@@ -142,11 +142,23 @@ def r3(ctx):
                      f"{v} arm releases {pc} credit(s) per path (required {want})" +
                      ("" if pc == want else (": the writer's credits leak and it blocks forever" if v == "Data" and (pc or (0, 0))[0] < 1
                       else ": credits are over-released, the bounded queue can overflow and drop data")))
+        # the Fin arm must record end-of-stream (the FIN has been popped from the queue: nothing else remembers it)
+        e = m.get("Fin", els)
+        wr = set()
+        for bb2, i2, s2 in b.all_stmts():
+            if place_last_field(s2["p"]) == "turmoil::net::tcp::stream::ReadHalf::is_closed" and s2["r"]["k"] == "use":
+                c = op_const(s2["r"]["o"])
+                if c is not None and c.get("v") == 1:
+                    wr.add(bb2)
+        pc = path_counts(b, e[1], lambda x: x in wr)
+        ctx.inst(R, f"{fid}:Fin-marks-closed", pc is not None and pc[0] >= 1, b.term(e[1]).get("s", b.span),
+                 "Fin arm sets is_closed = true on every path" if pc is not None and pc[0] >= 1 else
+                 "the Fin arm consumes the FIN without recording is_closed: the next read waits forever instead of returning EOF")
         # release must not happen anywhere else in the function
         other = [bb for bb in rel if not any(b.dominated_by_edge(bb, m.get(v, els)) for v in ("Data",))]
         ctx.inst(R, f"{fid}:release-elsewhere", not other, b.span, "credits released only in the Data arm" if not other else
                  "FlowControl::release is also called outside the Data arm")
-    ctx.floor(R, 6)
+    ctx.floor(R, 8)
 
 
 def r4(ctx):
@@ -248,7 +260,48 @@ def r6(ctx):
     ctx.floor(R, 3)
 
 
+def r7(ctx):
+    R = "C02-R7"
+    ctx.rule(R, "Drop for ReadHalf resets the connection (RST) only for unread *data*: every inspection of the receive queue "
+                "that feeds the decision is kind-aware (a match on SequencedSegment reaching its Data variant); a queued FIN alone "
+                "must lead to the graceful close_stream_half path")
+    d = ctx.body(R, "<turmoil::net::tcp::stream::ReadHalf as std::ops::Drop>::drop")
+    if not d:
+        return
+    n = 0
+    for fb in ctx.w.family(d.id):
+        rst = [bb for bb, i, s in fb.all_stmts() if s["r"]["k"] == "agg" and s["r"].get("adt") == SEG and s["r"].get("variant") == "Rst"]
+        if not rst:
+            continue
+        for bb, t in fb.calls():
+            if not t["args"]:
+                continue
+            o = deref_origin(fb, t["args"][0])
+            if o["k"] != "place":
+                continue
+            _, fields = root_place(fb, o["p"])
+            if "turmoil::net::tcp::stream::Rx::recv" not in fields:
+                continue
+            if not any(r_ in fb.reachable(bb) for r_ in rst):
+                continue
+            n += 1
+            k = f"drop:recv-inspection:{t['f']}"
+            if re.search(r"mpsc::Receiver::(try_recv|poll_recv)$", t["f"]):
+                # its result must be matched down to SequencedSegment::Data
+                ves = [v for v in variant_edges(fb, lambda p: True) if v[3] == "turmoil::host::SequencedSegment"]
+                ok = any("Data" in m for _, m, _, _, _ in ves)
+                ctx.inst(R, k, ok, t["s"], "queue head inspected by kind (Data vs Fin)" if ok else
+                         "try_recv result is not matched on SequencedSegment::Data")
+            else:
+                ctx.bad(R, k, t["s"], f"`{t['f']}` inspects the receive queue without looking at the segment kind: a queued FIN "
+                        "counts as unread data, the drop sends RST instead of closing gracefully and accepted bytes can be lost")
+        graceful = list(fb.calls("turmoil::host::Tcp::close_stream_half"))
+        ctx.inst(R, "drop:graceful-path", bool(graceful), fb.span, "graceful path calls close_stream_half" if graceful else "no graceful close path")
+    ctx.floor(R, 2)
+
+
 def run(ctx):
+    r7(ctx)
     r1(ctx)
     r2(ctx)
     r3(ctx)
